@@ -195,6 +195,7 @@ def c07(ctx: Ctx) -> None:
 def c11(ctx: Ctx) -> None:
     RE.rule_definite_assignment(ctx)
     RE.rule_call_arity(ctx)
+    RS.rule_no_stale_caches(ctx)
     RK.rule_kernels_exact(ctx)
     P = RP.PTL
     RP.rule_contains_behavior(ctx)
@@ -259,6 +260,7 @@ def c10(ctx: Ctx) -> None:
 def c13(ctx: Ctx) -> None:
     RE.rule_definite_assignment(ctx)
     RE.rule_call_arity(ctx)
+    RS.rule_no_stale_caches(ctx)
     RF.rule_no_operand_mutation(ctx)
     RF.rule_no_global_mutation(ctx)
     RF.rule_no_alias_results(ctx)
@@ -300,11 +302,14 @@ def c14(ctx: Ctx) -> None:
     RE.rule_unorderable_sort(ctx)
     RE.rule_array_inplace_cast(ctx)
     RE.rule_raise_message_types(ctx)
+    # evaluate is public and documented to accept a partial valuation
+    RK.rule_term_kernels(ctx, ["evaluate", "substitute"])
 
 
 def c19(ctx: Ctx) -> None:
     RE.rule_definite_assignment(ctx)
     RE.rule_call_arity(ctx)
+    RS.rule_no_stale_caches(ctx)
     RK.rule_kernels_exact(ctx)
     RS.rule_eq(ctx)
     RS.rule_hash(ctx)
@@ -336,6 +341,7 @@ def c17(ctx: Ctx) -> None:
 def c03(ctx: Ctx) -> None:
     RE.rule_definite_assignment(ctx)
     RE.rule_call_arity(ctx)
+    RS.rule_no_stale_caches(ctx)
     P = RP.PTL
     RP.rule_refines_order(ctx)
     RP.rule_emptiness_precheck(ctx)
